@@ -2,6 +2,7 @@ import PRV.Driver.C19
 import PRV.Driver.C10
 import PRV.Driver.C20
 import PRV.Driver.C11
+import PRV.Driver.C07
 
 open PRV.Driver
 
@@ -13,4 +14,5 @@ def main (args : List String) : IO UInt32 := do
   | ["monitor", "c10"] => runMonitor C10.monitor; return 0
   | ["monitor", "c20"] => runMonitor C20.monitor; return 0
   | ["monitor", "c11"] => runMonitor C11.monitor; return 0
+  | ["model", "c07"] => run C07.machine; return 0
   | _ => IO.eprintln "usage: prvdrv (model|spec) <property>"; return 2
